@@ -104,6 +104,19 @@ theorem C18_lastBefore_stable (f : VFile) (h : f.WF) (hws : f.ws = false) (s s' 
   intro u hu
   simpa using hgap u hu
 
+/-- Publishing a newer version never disturbs an older snapshot: after `pushBack v` every lookup
+    at a point `s ≤ v.seq` answers what it answered before; a lookup past `v` answers `v`. -/
+theorem C18_pushBack_lookup (f : VFile) (h : f.WF) (hws : f.ws = false) (v : Ver)
+    (hv : ∀ u ∈ f.l, u.seq < v.seq) (hpos : v.seq ≠ 0) (s : Nat) :
+    (f.pushBack v).lastBefore s = if v.seq < s then some v else f.lastBefore s := by
+  have hws' : (f.pushBack v).ws = false := by simp [VFile.pushBack, hws]
+  rw [C18_lastBefore _ (h.pushBack hv hpos) hws' s, C18_lastBefore f h hws s]
+  have hl : (f.pushBack v).l = f.l ++ [v] := by simp [VFile.pushBack]
+  rw [hl, List.filter_append]
+  by_cases hs : v.seq < s
+  · simp [hs]
+  · simp [hs]
+
 /-- non-vacuity: a concrete non-trivial well-formed store -/
 example : ({ l := [⟨"k",0,1,3,none⟩, ⟨"k",0,2,5,none⟩, ⟨"k",0,3,9,none⟩],
              arr := [⟨"k",0,1,3,none⟩, ⟨"k",0,2,5,none⟩, ⟨"k",0,3,9,none⟩] } : VFile).WF :=
